@@ -527,6 +527,8 @@ class Manager:
                 )
                 self.removeHandler(_on_done_handler, '%s_done' % event_name)
                 self.removeHandler(_on_tick_handler, 'generate_events')
+                if not state.run:
+                    self.removeHandler(_on_event_handler, event_name)
             elif state.timeout > 0:
                 state.timeout -= 1
 
